@@ -57,8 +57,11 @@ _A_GEN = ("rapid state-machine style generation against one fresh leader instanc
           "db_fast_key_count in {1,4,64} so that fast-slot collisions and the slow key map are common, aof time in {0,1}), 1..4 "
           "in-memory clients, 3..70 operations: LOCK/UNLOCK from the core command subset (flags show/update/concurrent-check/"
           "contains-data, unlock-first/cancel-wait, minute/priority/wait-when-unlocked timeout flags, minute/unlimited/aof expiry "
-          "flags, Count/Rcount/Timeout/Expried over their whole ranges with weights on boundary values), bursts of 9..140 "
-          "requests on one key, virtual-clock ticks (single seconds and clock jumps with the catch-up loop, timeout sweep before/after "
+          "flags, Count/Rcount/Timeout/Expried over their whole ranges with weights on boundary values), bursts of 9..330 "
+          "requests on one key (holders 200..260 beyond the in-line holder list; FIFO waiters 150..330 beyond the in-line wait slice, then a late "
+          "priority waiter, cancel-waits, or a drain of >= 256 grants by unlock-first followed by late arrivals that must not overtake the "
+          "overflow ring), long-expiry scenarios (2..6 holds sharing an entry of the long expiry table - zero-aof-time flag with E > 5 s, or aged "
+          "> 45 s - of which some leave by unlock or update before the deadline; the others must expire on time), virtual-clock ticks (single seconds and clock jumps with the catch-up loop, timeout sweep before/after "
           "expiry sweep), pool collection; then a drain (cancel every queued request, release every hold, advance the clock 24 s). "
           "Oracle: reference ledger driven by the reply stream + in-package snapshot after every operation and every clock second. ")
 
@@ -472,8 +475,14 @@ PROPS["C18"] = {
              "client id; one reply per text command; a reply for a dead connection's request is delivered when a "
              "connection is registered under its client id. Non-trivial: a connection with >= 1 registered will closed "
              "while >= 1 of its requests was queued (asynchronous reply pending). Distinct = distinct FNV-64 "
-             "fingerprints of the step list."),
+             "fingerprints of the step list. 38% of the cases are successor chains: one client id announced by 2-7 "
+             "successive binary connections (30% overlapping hand-overs), each leaving 0-3 requests queued behind a blocker connection's "
+             "holds on private keys (completed at drawn later points by the blocker's UNLOCK, or by TIMEOUT) and short-lived holds, "
+             "interleaved with clock ticks and with SLock.checkServerProtocolSession() (the 120 s proxy trim) run by the harness; a burst "
+             "lets one connection adopt the proxies of all its predecessors. The connection owed a late reply is the live connection "
+             "that announced the id most recently according to the harness's own record, not slock.clients."),
     "assumptions": [
+        "the session check is invoked directly while every handler is parked (its wall-clock timer is not part of the virtual clock)",
         "only DbId 0, flags 0, second-granularity Timeout/Expried, no value operations (the known C13 crash inputs are out of the domain by construction)",
         "a LockId is not re-used for a lock request while a request bearing it is queued on the key (engine A's assumption); will commands use fresh LockIds",
         "a re-entrant request re-states the Expried of the original request: a shortened expiry is honoured one sweep late (wheel slot not moved) - lock-engine territory, not judged here",
